@@ -9,7 +9,7 @@ CLAIM = {
             'the shift runs from the highest generation down, renaming [i-1] -> [i]; rotation happens only when not appending or '
             'when forced; only names from the list are passed to rename.',
     'note': 'Trusted: clang CFG, extractor. Undecided: file-system outcomes of rename; contents of generations.',
-    'technique': 'loop-shape extraction + index extent vs. fill bound (sibling rule on both sites); control dependence',
+    'technique': 'loop-shape extraction + index extent vs. fill bound (sibling rule on both sites); control dependence; critical-point evaluation of the stored count; default-argument agreement between configuration reader and constructor',
 }
 UNITS = ['runtime/logger.cpp', 'runtime/filepersist.cpp', 'runtime/configuration.cpp']
 EXPLANATION = (
